@@ -164,13 +164,10 @@ Theorem bridge_run_partition n key s p x m :
 Proof.
   unfold gen_run_partition, gen_body_partition. cbn [update].
   destruct s as [acc cnt det keyed win seen ports last].
-  set (ky := match key with Some kf => kf x | None => VNone end).
-  assert (K : forall (k : val -> M nstate unit) s0,
-            bind (if is_none_fn key then ret VNone else bind (call (opt_callf key x)) (fun v2 => ret v2)) k s0 = k ky s0).
-  { intros k s0. destruct key; py; destruct (k _ s0); reflexivity. }
-  py. rewrite K. unfold_partition. py. norm_assoc.
-  destruct (assoc_get ky keyed) as [[vs ms]|] eqn:E; py;
-    match goal with |- context [length ?l =? n] => destruct (length l =? n) end; norm_assoc; reflexivity.
+  (* however the source computes the key (helper, inlined if/elif, conditional expression): decide it first *)
+  destruct key as [kf|]; unfold_partition; pyr; norm_assoc;
+    match goal with |- context [assoc_get ?k keyed] => destruct (assoc_get k keyed) as [[vs ms]|] eqn:E end; pyr; norm_assoc;
+    repeat match goal with |- context [length ?l =? n] => destruct (length l =? n) end; norm_assoc; reflexivity.
 Qed.
 Theorem bridge_update_partition n key s p x m :
   gen_update_partition n key s p x m = update (KPartition n key) s p x m.
@@ -467,6 +464,16 @@ Ltac loop_leaf T others hv0 hm0 buf F2 F3 :=
   unfold mk, zip_latest_store; cbn [ls_last ls_meta ls_missing ls_buf latest_zip]; rewrite ?latest_roundtrip;
   reflexivity.
 
+Lemma truthy_flags_cons b l : truthy_flags (b :: l) = b || truthy_flags l.
+Proof. reflexivity. Qed.
+
+(* a leaf in which the loop does not run: the final state is committed once *)
+Ltac store_leaf Ev := unfold zip_latest_store; pz; cbn [latest_zip]; rewrite ?Ev, ?latest_roundtrip; reflexivity.
+
+(* The proof first decides everything the method can ask about the state (is the entry of this upstream / of the lossless
+   upstream present, is its stored metadata empty, are all the others present), turns the answers into rewrite rules for
+   the forms these questions take after unfolding, and then only executes: it does not depend on how the source nests,
+   merges, orders or negates its tests. *)
 Theorem bridge_run_zip_latest s p x m : p < length (st_last s) ->
   strip_r (gen_run_zip_latest s p x m) = strip_r (of_option (update KZipLatest s p x m)).
 Proof.
@@ -475,17 +482,10 @@ Proof.
   destruct L as [|o T0]; [cbn in Hp; lia|].
   destruct p as [|p'].
   - (* the lossless upstream *)
-    unfold_zl. pz.
-    assert (F := latest_full T0).
-    assert (E1 : truthy_flags (is_none o :: map is_none T0) && is_none o = is_none o).
-    { destruct o; cbn [is_none]; [apply andb_false_r | reflexivity]. }
-    rewrite E1.
-    destruct o as [[ov om]|]; pz; unfold truthy_flags at 1; cbn [existsb orb]; fold (truthy_flags (map is_none T0)).
-    all: destruct (all_some T0) as [others|]; [destruct F as [F1 [F2 F3]]|]; rewrite ?F1, ?F; pz.
-    + loop_leaf T0 others x (Some m) (win ++ [(x, m)]) F2 F3.
-    + unfold zip_latest_store; pz. cbn [latest_zip]. rewrite ?latest_roundtrip. reflexivity.
-    + loop_leaf T0 others x (Some m) (win ++ [(x, m)]) F2 F3.
-    + unfold zip_latest_store; pz. cbn [latest_zip]. rewrite ?latest_roundtrip. reflexivity.
+    assert (F := latest_full T0). unfold_zl.
+    destruct o as [[ov om]|]; (destruct (all_some T0) as [others|] eqn:EA; [destruct F as [F1 [F2 F3]]|]);
+      repeat (progress (pz; rewrite ?truthy_flags_cons, ?EA, ?F1, ?F; cbn [orb andb negb]));
+      first [ loop_leaf T0 others x (Some m) (win ++ [(x, m)]) F2 F3 | store_leaf F2 ].
   - (* another upstream *)
     assert (Hp' : p' < length T0) by (cbn in Hp; lia).
     set (T' := set_nth p' (Some (x, m)) T0).
@@ -493,34 +493,26 @@ Proof.
     assert (Em : set_nth p' (Some m) (map latest_md T0) = map latest_md T') by (unfold T'; rewrite map_set_nth; reflexivity).
     assert (Ei : set_nth p' false (map is_none T0) = map is_none T') by (unfold T'; rewrite map_set_nth; reflexivity).
     assert (F := latest_full T').
-    unfold_zl. pz. fold T'.
-    rewrite (nth_map_in latest_md p' T0 None None Hp').
-    destruct (nth p' T0 None) as [[ov om]|] eqn:Eo; cbn [latest_md option_map snd truthy_optmd].
-    + assert (Ei' : map is_none T0 = map is_none T').
-      { rewrite <- Ei. symmetry. apply set_nth_same with (d := false); [|rewrite map_length; exact Hp'].
-        rewrite (nth_map_in is_none p' T0 None false Hp'), Eo. reflexivity. }
-      destruct om as [|i om]; pz; rewrite ?(nth_map_in latest_md p' T0 None None Hp'), ?Eo; cbn [latest_md option_map snd]; pz;
-        rewrite (nth_map_in is_none p' T0 None false Hp'), Eo; cbn [is_none]; rewrite andb_false_r; pz;
-        rewrite ?Ev, ?Em, ?Ei'.
-      all: destruct o as [[v0 m0]|]; cbn [is_none latest_val latest_md option_map snd];
-        unfold truthy_flags at 1; cbn [existsb orb negb]; fold (truthy_flags (map is_none T')); pz.
-      all: try (unfold zip_latest_store; pz; cbn [latest_zip]; rewrite ?Ev, ?latest_roundtrip; reflexivity).
-      all: destruct (all_some T') as [others|]; [destruct F as [F1 [F2 F3]]|]; rewrite ?F1, ?F; pz.
-      all: try (unfold zip_latest_store; pz; cbn [latest_zip]; rewrite ?Ev, ?latest_roundtrip; reflexivity).
-      * rewrite ?Ev. loop_leaf T' others v0 (Some m0) win F2 F3.
-      * rewrite ?Ev. loop_leaf T' others v0 (Some m0) win F2 F3.
-    + pz. rewrite (nth_map_in is_none p' T0 None false Hp'), Eo; cbn [is_none].
-      assert (Et : truthy_flags (is_none o :: map is_none T0) = true).
-      { unfold truthy_flags. cbn [existsb]. fold (truthy_flags (map is_none T0)).
-        rewrite (truthy_flags_nth p' (map is_none T0)) by (rewrite (nth_map_in is_none p' T0 None false Hp'), Eo; reflexivity).
-        apply orb_true_r. }
-      rewrite Et. pz. rewrite ?Ev, ?Em, ?Ei.
-      destruct o as [[v0 m0]|]; cbn [is_none latest_val latest_md option_map snd];
-        unfold truthy_flags at 1; cbn [existsb orb negb]; fold (truthy_flags (map is_none T')); pz.
-      all: try (unfold zip_latest_store; pz; cbn [latest_zip]; rewrite ?Ev, ?latest_roundtrip; reflexivity).
-      destruct (all_some T') as [others|]; [destruct F as [F1 [F2 F3]]|]; rewrite ?F1, ?F; pz.
-      all: try (unfold zip_latest_store; pz; cbn [latest_zip]; rewrite ?Ev, ?latest_roundtrip; reflexivity).
-      loop_leaf T' others v0 (Some m0) win F2 F3.
+    assert (Nmd := nth_map_in latest_md p' T0 None None Hp').
+    assert (Nis := nth_map_in is_none p' T0 None false Hp').
+    unfold_zl.
+    destruct (nth p' T0 None) as [[ov om]|] eqn:Eo; cbn [latest_md option_map snd is_none] in Nmd, Nis.
+    + (* it had emitted before: its old metadata is released (unless empty); the set of missing upstreams is unchanged *)
+      assert (Ei' : map is_none T0 = map is_none T').
+      { rewrite <- Ei. symmetry. apply set_nth_same with (d := false); [|rewrite map_length; exact Hp']. exact Nis. }
+      assert (Nis' : nth p' (map is_none T') false = false) by (rewrite <- Ei'; exact Nis).
+      destruct om as [|i om]; destruct o as [[v0 m0]|];
+        (destruct (all_some T') as [others|] eqn:EA; [destruct F as [F1 [F2 F3]]|]);
+        repeat (progress (pz; fold T'; rewrite ?truthy_flags_cons, ?Eo, ?Nmd, ?Nis, ?Nis', ?Ev, ?Em, ?Ei', ?EA, ?F1, ?F;
+                          cbn [truthy_optmd orb andb negb latest_val latest_md option_map fst snd]));
+        first [ loop_leaf T' others v0 (Some m0) win F2 F3 | store_leaf Ev ].
+    + (* first element from this upstream: it was missing *)
+      assert (Et : truthy_flags (map is_none T0) = true) by (apply (truthy_flags_nth p'); exact Nis).
+      destruct o as [[v0 m0]|];
+        (destruct (all_some T') as [others|] eqn:EA; [destruct F as [F1 [F2 F3]]|]);
+        repeat (progress (pz; fold T'; rewrite ?truthy_flags_cons, ?Eo, ?Nmd, ?Nis, ?Et, ?Ev, ?Em, ?Ei, ?EA, ?F1, ?F;
+                          cbn [truthy_optmd orb andb negb latest_val latest_md option_map fst snd]));
+        first [ loop_leaf T' others v0 (Some m0) win F2 F3 | store_leaf Ev ].
 Qed.
 
 Theorem bridge_update_zip_latest s p x m : p < length (st_last s) ->
